@@ -480,6 +480,15 @@ m('index-join-over-filtered-right-plan', ['C11', 'C06'], SO, """		if seqScan, ok
 m('tmp-tuple-page-free-space-check-wraps', ['C11', 'C15'], 'lib/materialization/tmp_tuple_page.go', """	if freeOffset < needSize+uint32(offsetFreeSpace+4) {
 """, """	if freeOffset-needSize < uint32(offsetFreeSpace+4) {
 """, ['C15-R6 [(*materialization.TmpTuplePage).Insert:unsigned-difference-compared'])
+ST = 'lib/catalog/statistics.go'
+m('statistics-output-without-latch', ['C19'], ST, """	// o is referenced by threads which make plans
+	o.latch.WLock()
+	defer o.latch.WUnlock()
+""", """""", ['C19-R1/statistics [columnStats-field:max:outsider:(*catalog.distinctCounter).Output]'])
+m('statistics-copy-without-latch', ['C19'], ST, """	// cs can be updated by statistics updater thread
+	cs.latch.RLock()
+	defer cs.latch.RUnlock()
+""", """""", ['C19-R1/statistics [columnStats.GetDeepCopy:fields-under-latch]'])
 # drop the one that needs a helper that does not exist
 M = [x for x in M if x['id'] != 'insert-executor-unlocks-early']
 os.chdir(os.path.dirname(os.path.abspath(__file__)) + '/..')
